@@ -481,14 +481,19 @@ func Known(line, kind string) string {
 		v := Tokenize(repaired)
 		return v.Panic == nil && v.Unsafe
 	}
+	// only root causes that are still open are considered: a repaired one
+	// needs no rewriting and must not absorb a failure
 	for _, r := range repairs {
-		if flips(r.fn(line)) {
+		if knownOpenCached(r.id) && flips(r.fn(line)) {
 			return r.id
 		}
 	}
 	// several root causes in one line: all repairs together
 	all, first := line, ""
 	for _, r := range repairs {
+		if !knownOpenCached(r.id) {
+			continue
+		}
 		if n := r.fn(all); n != all {
 			all = n
 			if first == "" {
